@@ -1,0 +1,38 @@
+//go:build verif
+
+package ruleguard
+
+import (
+	"go/ast"
+	"go/token"
+
+	"github.com/quasilyte/gogrep"
+)
+
+// VerifRegexpHasCaptureGroups exposes regexpHasCaptureGroups.
+func VerifRegexpHasCaptureGroups(pattern string) bool { return regexpHasCaptureGroups(pattern) }
+
+func verifTextRunner(fset *token.FileSet, src []byte, truncateLen int) *rulesRunner {
+	rr := &rulesRunner{
+		ctx:         &RunContext{Fset: fset},
+		src:         src,
+		truncateLen: truncateLen,
+	}
+	if rr.src == nil {
+		rr.src = make([]byte, 0)
+	}
+	return rr
+}
+
+// VerifRenderMessage runs renderMessage on a template, a whole-match node and a capture list
+// over the given file bytes (src plays the role of the file read from disk).
+func VerifRenderMessage(fset *token.FileSet, src []byte, truncateLen int, msg string, whole ast.Node, capture []gogrep.CapturedNode, truncate bool) string {
+	rr := verifTextRunner(fset, src, truncateLen)
+	m := matchData{match: gogrep.MatchData{Node: whole, Capture: capture}}
+	return rr.renderMessage(msg, m, truncate)
+}
+
+// VerifNodeText runs nodeText over the given file bytes.
+func VerifNodeText(fset *token.FileSet, src []byte, n ast.Node) []byte {
+	return verifTextRunner(fset, src, 0).nodeText(n)
+}
